@@ -13,7 +13,8 @@ class C18(ChanSpec):
                   "blocking mode the enqueue is enabled exactly when there is room, and giving up on a done caller context or a closed channel leaves accepted/wire unchanged. Tie: scenarios "
                   "with slow/stalled senders, pre-cancelled and concurrently cancelled caller contexts and Close arriving while writers wait; the controller reports at every decision which "
                   "goroutines are parked-and-disabled, and the monitor flags a writer parked on the queue in non-blocking mode; the streaming entry point (ReadFrom, 1-6 chunks, 1-3 free slots, sender stalled) is run "
-                  "sequentially against readFromNoSpace with a watchdog for calls that do not return.")
+                  "sequentially against readFromNoSpace with a watchdog for calls that do not return; queue capacities 1 … 4000 are filled exactly (non-blocking) and two writes stay parked on a "
+                  "full queue for 5.5 s of real time (31 s in the thorough tier) before the sender is run.")
     level_note = C01.level_note + " The error value returned on the closed branch when the close error is nil is C11's subject."
     rule = C01.rule.replace("sync or async", "async only") + "; plus canceller goroutines (context.CancelFunc) and closers; contexts: live / already done / cancelled concurrently"
     assumptions = ("caller contexts are cancelled only through the scenario's canceller goroutines",)
@@ -30,13 +31,14 @@ class C18(ChanSpec):
         return lines
 
     def nontrivial(self, line, answer):
-        if line.split()[1] == "rf":
+        if line.split()[1] in ("rf", "qfill", "park"):
             return "refused" in answer
         return ChanSpec.nontrivial(self, line, answer)
 
     def extra_coverage(self, pairs):
-        d = ChanSpec.extra_coverage(self, [(l, a) for l, a in pairs if l.split()[1] != "rf"])
+        d = ChanSpec.extra_coverage(self, [(l, a) for l, a in pairs if l.split()[1] not in ("rf", "qfill", "park")])
         rf = [a for l, a in pairs if l.split()[1] == "rf"]
+        d["input_distribution"]["capacity_and_patience"] = [l for l, a in pairs if l.split()[1] in ("qfill", "park")]
         d["input_distribution"]["readfrom_nonblocking"] = dict(calls=len(rf), refused=sum(1 for a in rf if "refused" in a))
         return d
 
